@@ -15,6 +15,34 @@ Local Open Scope R_scope.
 Lemma nltb0_R x : @nltb R NumR n0 x = true <-> 0 < x.
 Proof. apply (nltb_R 0 x). Qed.
 
+(* ---- the tabulated mask is the mask ---- *)
+Section Tab.
+Variable m : mdp R.
+Lemma masktab_nth s : (s < nS m)%nat -> nth s (masktab m) false = masked m s.
+Proof.
+  intros Hs. unfold masktab.
+  rewrite (nth_indep _ false (masked m 0%nat)) by (rewrite map_length, seq_length; auto).
+  rewrite map_nth, seq_nth; auto.
+Qed.
+Lemma PmT_eq s a ns : (s < nS m)%nat -> PmT m (masktab m) s a ns = Pm m s a ns.
+Proof. intros Hs. unfold PmT, Pm. now rewrite masktab_nth. Qed.
+Lemma QvalT_eq V s a : (s < nS m)%nat -> QvalT m (masktab m) V s a = Qval m V s a.
+Proof.
+  intros Hs. unfold QvalT. rewrite masktab_nth by auto. rewrite Qval_R. unfold Rm, Pm.
+  destruct (masked m s).
+  - numR. rewrite sumf_0; [lra|]. intros; lra.
+  - reflexivity.
+Qed.
+Lemma fixbT_fixpoint (V : list R) : fixbT m (masktab m) V = true -> fixpoint m (untab V).
+Proof.
+  unfold fixbT. rewrite forallbn_spec. intros H s Hs. specialize (H s Hs).
+  rewrite (maxf_ext (nA m) (avail m s) (avail m s) _ (Qval m (untab V) s)) in H;
+    [|reflexivity|intros; apply QvalT_eq; auto].
+  unfold Top, backup. destruct (maxf (nA m) (avail m s) (Qval m (untab V) s)); [|discriminate].
+  apply neqb_Req in H. exact H.
+Qed.
+End Tab.
+
 (* ================================================================== *)
 (* Part A                                                              *)
 (* ================================================================== *)
@@ -178,6 +206,15 @@ Proof.
   destruct (Vm_cases V s) as [E|E]; rewrite E; lra.
 Qed.
 
+(* exactly consistent values ARE the policy's values (used for the non-vacuity example) *)
+Lemma cons0_poleval V : consistent 0 V -> poleval (Vm m V).
+Proof.
+  intros H s Hs Hin. specialize (H s Hs Hin). apply Rabs_le_inv' in H.
+  unfold Vm at 1. destruct (absflag m s) eqn:E.
+  - rewrite Qval_masked; [reflexivity|]. now apply absflag_masked.
+  - lra.
+Qed.
+
 (* values that are r-consistent with the policy on C are within r*N of the policy's own values *)
 Theorem eval_close V Vpi N r :
   closedC -> steps_cert N -> 0 <= r -> poleval Vpi -> consistent r V ->
@@ -291,7 +328,7 @@ Proof.
 Qed.
 
 Lemma c_closed_spec :
-  c_closed m o = true ->
+  c_closed m (masktab m) o = true ->
   closedC m (lC o) (lPol o) /\
   (forall s, (s < nS m)%nat -> 0 < init m s -> lC o s = true) /\
   (forall s, (s < nS m)%nat -> lC o s = true -> lExp o s = true).
@@ -303,7 +340,7 @@ Proof.
     rewrite !andb_true_iff in H. tauto.
   - intros ns Hns Hp. specialize (H s H0). apply andb_true_iff in H as [_ H]. rewrite H1 in H.
     rewrite !andb_true_iff in H. destruct H as [_ H]. rewrite forallbn_spec in H.
-    specialize (H ns Hns). apply nltb0_R in Hp. now rewrite Hp in H.
+    specialize (H ns Hns). rewrite PmT_eq in H by auto. apply nltb0_R in Hp. now rewrite Hp in H.
   - intros s Hs Hp. specialize (H s Hs). apply andb_true_iff in H as [H _].
     apply nltb0_R in Hp. now rewrite Hp in H.
   - intros s Hs Hc. specialize (H s Hs). apply andb_true_iff in H as [_ H]. rewrite Hc in H.
@@ -311,10 +348,10 @@ Proof.
 Qed.
 
 Lemma c_cons_spec :
-  c_cons m o t = true -> consistent m (lC o) (lPol o) (rho t) (lV o).
+  c_cons m (masktab m) o t = true -> consistent m (lC o) (lPol o) (rho t) (lV o).
 Proof.
   unfold c_cons. rewrite forallbn_spec. intros H s Hs Hc. specialize (H s Hs).
-  rewrite Hc in H. now apply ncloseb_R in H.
+  rewrite Hc in H. rewrite QvalT_eq in H by auto. now apply ncloseb_R in H.
 Qed.
 
 Lemma c_upper_spec :
@@ -326,12 +363,14 @@ Proof.
 Qed.
 
 Lemma c_steps_spec :
-  c_steps m o Nst = true -> steps_cert m (lC o) (lPol o) (untab Nst).
+  c_steps m (masktab m) o Nst = true -> steps_cert m (lC o) (lPol o) (untab Nst).
 Proof.
   unfold c_steps. rewrite forallbn_spec. intros H. split.
   - intros s Hs. specialize (H s Hs). apply andb_true_iff in H as [H _]. now apply nleb_Rle in H.
   - intros s Hs Hc. specialize (H s Hs). apply andb_true_iff in H as [_ H]. rewrite Hc in H.
-    apply nleb_Rle in H. numR. exact H.
+    apply nleb_Rle in H. numR. unfold psum.
+    rewrite (sumf_ext _ _ (fun ns => PmT m (masktab m) s (lPol o s) ns * untab Nst ns));
+      [exact H|]. intros ns Hns. now rewrite PmT_eq.
 Qed.
 
 Lemma c_det_spec :
@@ -368,7 +407,7 @@ Lemma preach_lt s : preach s -> (s < nS m)%nat.
 Proof. destruct 1; auto. Qed.
 
 Theorem policy_total :
-  c_closed m o = true -> c_det m o = true ->
+  c_closed m (masktab m) o = true -> c_det m o = true ->
   forall s, preach s ->
     lC o s = true /\ lExp o s = true /\ (lPol o s < nA m)%nat /\ avail m s (lPol o s) = true /\
     forall a, (a < nA m)%nat -> lPi o s a = if (a =? lPol o s)%nat then 1 else 0.
@@ -395,8 +434,8 @@ Qed.
 
 (* ---- values, policy values: general (certificate N) ---- *)
 Theorem final_general Vpi :
-  wfb m = true -> c_closed m o = true -> c_cons m o t = true -> c_fix m Vstar = true ->
-  c_upper m o t Vstar = true -> c_steps m o Nst = true -> 0 <= rho t ->
+  wfb m = true -> c_closed m (masktab m) o = true -> c_cons m (masktab m) o t = true -> c_fix m (masktab m) Vstar = true ->
+  c_upper m o t Vstar = true -> c_steps m (masktab m) o Nst = true -> 0 <= rho t ->
   poleval m (lC o) (lPol o) Vpi ->
   forall s, (s < nS m)%nat -> lC o s = true ->
     untab Vstar s - ups t <= lV o s <= untab Vstar s + rho t * untab Nst s /\
@@ -407,13 +446,13 @@ Proof.
   pose proof (wfb_wf m Hwf) as Wf.
   destruct (c_closed_spec Hcl) as (HC & _ & Hexp).
   apply (lao_final_core m Wf (lC o) (lPol o) (untab Vstar) (lV o) Vpi (untab Nst) (rho t) (ups t));
-    auto using c_steps_spec, c_cons_spec, fixb_fixpoint.
+    auto using c_steps_spec, c_cons_spec, fixbT_fixpoint.
   intros s Hs Hc. apply (c_upper_spec Hup); auto.
 Qed.
 
 (* ---- discounted: no certificate needed, and Vs is ANY fixed point of the optimality operator ---- *)
 Theorem final_discounted Vs Vpi :
-  wfb m = true -> c_closed m o = true -> c_cons m o t = true -> c_fix m Vstar = true ->
+  wfb m = true -> c_closed m (masktab m) o = true -> c_cons m (masktab m) o t = true -> c_fix m (masktab m) Vstar = true ->
   c_upper m o t Vstar = true -> 0 <= rho t -> gamma m < 1 ->
   fixpoint m Vs -> poleval m (lC o) (lPol o) Vpi ->
   forall s, (s < nS m)%nat -> lC o s = true ->
@@ -425,10 +464,10 @@ Proof.
   pose proof (wfb_wf m Hwf) as Wf.
   destruct (c_closed_spec Hcl) as (HC & _ & Hexp).
   assert (E : Vs s = untab Vstar s).
-  { apply (fixpoint_unique m Vs (untab Vstar) Wf G1 HVs (fixb_fixpoint m Vstar Hfix) s Hs). }
+  { apply (fixpoint_unique m Vs (untab Vstar) Wf G1 HVs (fixbT_fixpoint m Vstar Hfix) s Hs). }
   pose proof (lao_final_core m Wf (lC o) (lPol o) (untab Vstar) (lV o) Vpi
                 (fun _ => 1 / (1 - gamma m)) (rho t) (ups t) HC
-                (const_cert m Wf (lC o) (lPol o) HC G1) (fixb_fixpoint m Vstar Hfix) Hpe Hr
+                (const_cert m Wf (lC o) (lPol o) HC G1) (fixbT_fixpoint m Vstar Hfix) Hpe Hr
                 (c_cons_spec Hcons)) as H.
   assert (Hup' : forall s, (s < nS m)%nat -> lC o s = true -> untab Vstar s - ups t <= lV o s)
     by (intros s' Hs' Hc'; apply (c_upper_spec Hup); auto).
@@ -439,12 +478,12 @@ Qed.
 
 (* every value held for an explored state is an upper bound on the optimal value *)
 Theorem explored_upper Vs :
-  wfb m = true -> c_fix m Vstar = true -> c_upper m o t Vstar = true -> gamma m < 1 ->
+  wfb m = true -> c_fix m (masktab m) Vstar = true -> c_upper m o t Vstar = true -> gamma m < 1 ->
   fixpoint m Vs ->
   forall s, (s < nS m)%nat -> lExp o s = true -> Vs s - ups t <= lV o s.
 Proof.
   intros Hwf Hfix Hup G1 HVs s Hs He.
-  rewrite (fixpoint_unique m Vs (untab Vstar) (wfb_wf m Hwf) G1 HVs (fixb_fixpoint m Vstar Hfix) s Hs).
+  rewrite (fixpoint_unique m Vs (untab Vstar) (wfb_wf m Hwf) G1 HVs (fixbT_fixpoint m Vstar Hfix) s Hs).
   apply (c_upper_spec Hup); auto.
 Qed.
 
@@ -452,8 +491,8 @@ Qed.
 Definition avg (x : nat -> R) : R := sumf (nS m) (fun s => init m s * x s).
 
 Theorem initial_general Vpi B :
-  wfb m = true -> c_initdist m = true -> c_closed m o = true -> c_cons m o t = true ->
-  c_fix m Vstar = true -> c_upper m o t Vstar = true -> c_steps m o Nst = true ->
+  wfb m = true -> c_initdist m = true -> c_closed m (masktab m) o = true -> c_cons m (masktab m) o t = true ->
+  c_fix m (masktab m) Vstar = true -> c_upper m o t Vstar = true -> c_steps m (masktab m) o Nst = true ->
   c_init m o t = true -> 0 <= rho t -> 0 <= ups t ->
   (forall s, (s < nS m)%nat -> lC o s = true -> untab Nst s <= B) ->
   poleval m (lC o) (lPol o) Vpi ->
@@ -493,8 +532,8 @@ Proof.
 Qed.
 
 Theorem initial_discounted Vs Vpi :
-  wfb m = true -> c_initdist m = true -> c_closed m o = true -> c_cons m o t = true ->
-  c_fix m Vstar = true -> c_upper m o t Vstar = true ->
+  wfb m = true -> c_initdist m = true -> c_closed m (masktab m) o = true -> c_cons m (masktab m) o t = true ->
+  c_fix m (masktab m) Vstar = true -> c_upper m o t Vstar = true ->
   c_init m o t = true -> 0 <= rho t -> 0 <= ups t -> gamma m < 1 ->
   fixpoint m Vs -> poleval m (lC o) (lPol o) Vpi ->
   Rabs (lInit o - avg Vs) <= itol t + (ups t + rho t / (1 - gamma m)) /\
@@ -533,7 +572,7 @@ Variable r : R.
 Hypothesis Hr : 0 <= r.
 
 Lemma step_ok_spec st x Z st' :
-  step_ok m r st x Z st' = true ->
+  step_ok m (masktab m) r st x Z st' = true ->
   (x < nS m)%nat /\ sE st x = false /\ Z x = true /\
   forall s, (s < nS m)%nat ->
     sE st' s = (sE st s || (s =? x)%nat) /\
@@ -555,13 +594,16 @@ Proof.
   - intros HZ. rewrite HZ in H. rewrite !andb_true_iff in H.
     destruct H as [[[[H1 H2] H3] H4] H5].
     split; [exact H1|]. split; [now apply Nat.ltb_lt|]. split; [exact H3|].
+    rewrite QvalT_eq in H4 by auto.
     split; [now apply ncloseb_R in H4|].
     rewrite forallbn_spec in H5. intros a Ha Hav. specialize (H5 a Ha). rewrite Hav in H5.
+    rewrite QvalT_eq in H5 by auto.
     apply nleb_Rle in H5. numR. exact H5.
   - intros HZ. rewrite HZ in H. apply andb_true_iff in H as [H1 H2].
     split; [now apply neqb_Req|]. intros HEs. rewrite HEs in H2.
     apply andb_true_iff in H2 as [H2 H3]. split; [now apply Nat.eqb_eq|].
     rewrite forallbn_spec in H3. intros ns Hns Hp. specialize (H3 ns Hns).
+    rewrite PmT_eq in H3 by auto.
     apply nltb0_R in Hp. rewrite Hp in H3. now apply negb_true_iff.
 Qed.
 
@@ -572,7 +614,7 @@ Definition inv_cons (st : @snap R) : Prop :=
     Rabs (sV st s - Qval m (Vm m (sV st)) s (sPol st s)) <= r.
 
 Theorem step_cons st x Z st' :
-  step_ok m r st x Z st' = true -> inv_cons st -> inv_cons st'.
+  step_ok m (masktab m) r st x Z st' = true -> inv_cons st -> inv_cons st'.
 Proof.
   intros Hstep Hinv. destruct (step_ok_spec _ _ _ _ Hstep) as (Hx & Hex & HZx & H).
   intros s Hs HE'. destruct (H s Hs) as (HE & HZt & HZf).
@@ -623,7 +665,7 @@ Qed.
    upper bounds yields upper bounds on Z; the sub-MDP of laostar.py:308-358 folds the boundary
    into a pseudo-terminal reward, which is exactly Qval over the full MDP with V unchanged outside Z *)
 Theorem step_upper st x Z st' :
-  step_ok m r st x Z st' = true -> inv_upper st -> inv_upper st'.
+  step_ok m (masktab m) r st x Z st' = true -> inv_upper st -> inv_upper st'.
 Proof.
   intros Hstep Hinv. destruct (step_ok_spec _ _ _ _ Hstep) as (Hx & Hex & HZx & H).
   pose proof (wf_gamma0 m Wf) as G0. pose proof slack_ge as Hsl.
@@ -668,7 +710,7 @@ Qed.
 
 (* ---- runs ---- *)
 Theorem run_cons st l :
-  run_ok m r st l = true -> inv_cons st -> inv_cons (run_last st l).
+  run_ok m (masktab m) r st l = true -> inv_cons st -> inv_cons (run_last st l).
 Proof.
   revert st. induction l as [|k l IH]; intros st Hrun Hinv; [exact Hinv|].
   simpl in Hrun. apply andb_true_iff in Hrun as [H1 H2]. simpl.
@@ -676,7 +718,7 @@ Proof.
 Qed.
 
 Theorem run_upper st l :
-  run_ok m r st l = true -> inv_upper st -> inv_upper (run_last st l).
+  run_ok m (masktab m) r st l = true -> inv_upper st -> inv_upper (run_last st l).
 Proof.
   revert st. induction l as [|k l IH]; intros st Hrun Hinv; [exact Hinv|].
   simpl in Hrun. apply andb_true_iff in Hrun as [H1 H2]. simpl.
@@ -719,8 +761,8 @@ Proof.
 Qed.
 
 Theorem run_final Vs Vpi :
-  wfb m = true -> c_closed m o = true -> c_fix m Vstar = true ->
-  admissibleb m Vstar h = true -> run_ok m (rho t) st0 l = true ->
+  wfb m = true -> c_closed m (masktab m) o = true -> c_fix m (masktab m) Vstar = true ->
+  admissibleb m Vstar h = true -> run_ok m (masktab m) (rho t) st0 l = true ->
   sync_ok m o (run_last st0 l) = true -> 0 <= rho t -> gamma m < 1 ->
   fixpoint m Vs -> poleval m (lC o) (lPol o) Vpi ->
   (forall s, (s < nS m)%nat -> lExp o s = true -> Vs s - rho t / (1 - gamma m) <= lV o s) /\
@@ -734,7 +776,7 @@ Proof.
   destruct (c_closed_spec m o Hcl) as (HC & Hini & Hexp).
   set (last := run_last st0 l) in *.
   assert (EV : forall s, (s < nS m)%nat -> Vs s = untab Vstar s).
-  { intros s Hs. apply (fixpoint_unique m Vs (untab Vstar) Wf G1 HVs (fixb_fixpoint m Vstar Hfix) s Hs). }
+  { intros s Hs. apply (fixpoint_unique m Vs (untab Vstar) Wf G1 HVs (fixbT_fixpoint m Vstar Hfix) s Hs). }
   assert (Hup : inv_upper m (rho t) Vs last).
   { apply run_upper; auto. intros s Hs. simpl.
     pose proof (admissibleb_spec Hadm s Hs) as Ha. rewrite <- (EV s Hs) in Ha.
